@@ -18,6 +18,9 @@ GEN = {
                  dict(MaxH=6, G=100, N=5, MaxInvalid=1, MaxLen=5, Tickets="FALSE", Weights="{1, 2}")],
 }
 SAMPLE = {"quick": 4000, "thorough": 60000}
+GT = {"quick": dict(MaxH=9, G=100, M=7, K=6, F=2, MaxLen=13),
+      "thorough": dict(MaxH=10, G=100, M=8, K=7, F=2, MaxLen=15)}
+GT_SAMPLE = {"quick": 500, "thorough": 8000}
 MAXH_TRACE = 16
 
 
@@ -37,7 +40,23 @@ def mc(wd, t):
     return dist, gen, cov
 
 
-def deep_scenarios(rnd, n, max_blocks=12, invalid_p=0.35):
+def mc_gt(wd, t, rnd):
+    """ticket-density instance: model checking + scenario generation in one TLC run"""
+    cfg = os.path.join(wd, "MC_ChainGT.cfg")
+    write_cfg(cfg, "MCSpec", GT[t],
+              invariants=["QuiescentConsistent", "MicroEqualsBig", "StepsBounded", "DensityOnChain",
+                          "PrintScenario"],
+              properties=["TipNeverLower"])
+    rc, out = tlc("MC_ChainGT.tla", cfg, wd, workers=12, timeout=3000, heap="12g")
+    if not tlc_ok(out):
+        raise ToolError("MC_ChainGT: " + tlc_error_summary(out))
+    dist, gen_n = tlc_stats(out)
+    scns = printed(out, "SCN")
+    log("MC_ChainGT: %d distinct states, %d behaviours" % (dist, len(scns)))
+    return dist, gen_n, sample(scns, GT_SAMPLE[t], rnd)
+
+
+def deep_scenarios(rnd, n, max_blocks=12, invalid_p=0.35, tickets=False):
     """Seeded random scenarios beyond the TLC bound: 2-3 branches, back-and-forth growth, one invalid
     block at a random position, orphans by delivering out of order, duplicates."""
     out = []
@@ -54,11 +73,12 @@ def deep_scenarios(rnd, n, max_blocks=12, invalid_p=0.35):
                 i = rnd.randrange(len(tips))
                 par = tips[i]
                 tips[i] = b
-            blocks.append(dict(id=b, parent=par, gt=False, w=rnd.choice([1, 2, 2, 3]), ok=True))
+            blocks.append(dict(id=b, parent=par, gt=(tickets and rnd.random() < 0.45),
+                               w=rnd.choice([1, 2, 2, 3]), ok=True))
         if rnd.random() < invalid_p:
             x = rnd.choice(blocks[1:])
             x["ok"] = False
-            x["bad"] = rnd.choice(["burnfee", "difficulty", "treasury", "unpaid"])
+            x["bad"] = rnd.choice(["burnfee", "difficulty", "unpaid"])  # always-checked header rules only
         order = [1]
         ids = [b["id"] for b in blocks[1:]]
         mode = rnd.random()
@@ -113,6 +133,12 @@ def run(pid, t, replay=None):
         log("MC_Chain: %d distinct states, %d generated" % (dist, gen_n))
         scns = gen(wd, t, rnd)
         scns += deep_scenarios(rnd, 300 if t == "quick" else 6000)
+        if pid == "C05":
+            d2, g2, s2 = mc_gt(wd, t, rnd)
+            dist += d2
+            gen_n += g2
+            scns += s2
+            scns += deep_scenarios(rnd, 300 if t == "quick" else 4000, tickets=True)
     spath = os.path.join(wd, "scenarios.jsonl")
     with open(spath, "w") as f:
         for s in scns:
